@@ -151,6 +151,8 @@ def common_shrinks(scn):
         yield with_path(scn, ["device", "terminals"], [])
     if dv["mesh"].get("smooth"):
         yield with_path(scn, ["device", "mesh", "smooth"], 0)
+    if dv["layer"].get("z0"):
+        yield with_path(scn, ["device", "layer", "z0"], 0.0)
     if dv["film"]["kind"] != "box" and not dv.get("terminals"):
         yield with_path(scn, ["device", "film"], {"kind": "box", "w": 4.0, "h": 3.0, "npts": 12})
     # (5) options to defaults
@@ -169,8 +171,8 @@ def common_shrinks(scn):
 
         s = copy.deepcopy(scn)
         f = LEN_FACTOR[dv["length_units"]]
-        for key in ("xi", "lam", "d"):
-            s["device"]["layer"][key] = float(f"{dv['layer'][key] / f:.6g}")
+        for key in ("xi", "lam", "d", "z0"):
+            s["device"]["layer"][key] = float(f"{dv['layer'].get(key, 0.0) / f:.6g}")
         s["device"]["length_units"] = "um"
         yield s
 
